@@ -140,7 +140,7 @@ def run(prog, tier, res):
                        "the in-order concatenation of the chunk payloads.")
     res.trusted = ["slice::sort*_by_key is a deterministic function of its input sequence and sorts by the key",
                    "Iterator::position/enumerate/take/fold have their documented semantics"]
-    R1 = res.rule("C04.R1", "order-dependent uses of the chunk vector are dominated by a sort keyed on chunk_id", floor=6)
+    R1 = res.rule("C04.R1", "order-dependent uses of the chunk vector are dominated by a sort keyed on chunk_id", floor=4)
     R2 = res.rule("C04.R2", "pre-sort uses are permutation-invariant: is_empty / 'all g(c) == g(chunks[0])' for board and chip", floor=3)
     R3 = res.rule("C04.R3", "accept path requires chunk_id_i == i for all i (dense ids, after the sort)", floor=1)
     R4 = res.rule("C04.R4", "accept path requires end-of-message on the last chunk and on no earlier chunk; is_end_of_message() is `flags == 1`", floor=3)
@@ -234,7 +234,7 @@ def run(prog, tier, res):
                 return "chip"
         if whole and f.enum and f.atoms in ({"i - x.%d == 0" % chunk_id}, {"-i + x.%d == 0" % chunk_id}):
             return "dense"
-        if butlast and not f.enum and f.atoms == {"pred %sis_end_of_message(x) False" % ACC}:
+        if butlast and f.atoms == {"pred %sis_end_of_message(x) False" % ACC}:          # (with or without an unused enumerate index)
             return "eom_none_before"
         if butlast and not f.enum and len(f.atoms) == 1:
             a = next(iter(f.atoms))
